@@ -283,15 +283,17 @@ struct Run {
         int api = strkeys ? (int)s.pick({3, 1, 2}) : 2;   // get, getstr, getobj
         bool newmem = s.boolean();
         Buf kb(k);
-        size_t sz = 777777;
+        bool nosz = api != 1 && s.chance(1, 8);            // the size out-parameter is optional
+        size_t sz = 777777, *szp = nosz ? nullptr : &sz;
         void *p;
         errno = poison;
         long c0 = g_cmp_count;
         switch (api) {
-            case 0: p = qtreetbl_get(t, kb.c(), &sz, newmem); break;
+            case 0: p = qtreetbl_get(t, kb.c(), szp, newmem); break;
             case 1: p = qtreetbl_getstr(t, kb.c(), newmem); break;
-            default: p = qtreetbl_getobj(t, kb.p, kb.n, &sz, newmem);
+            default: p = qtreetbl_getobj(t, kb.p, kb.n, szp, newmem);
         }
+        if (nosz) { auto f = m.find(k); if (f != m.end() && f->second.hasval) sz = f->second.val.size(); c.tag("null_size_outparam"); }
         long used = g_cmp_count - c0;
         int e = errno;
         c.op("%s(%s,newmem=%d)", api == 0 ? "get" : api == 1 ? "getstr" : "getobj", hexs(k, 12).c_str(), (int)newmem);
@@ -334,11 +336,13 @@ struct Run {
         else rm_absent++;
     }
     void do_minmax(bool mx) {
+        bool nosz = strkeys && s.chance(1, 6);             // "namesize: if not NULL ..."; string keys carry their terminator
         size_t ns = 999999;
         errno = poison;
-        void *p = mx ? qtreetbl_find_max(t, &ns) : qtreetbl_find_min(t, &ns);
+        void *p = mx ? qtreetbl_find_max(t, nosz ? nullptr : &ns) : qtreetbl_find_min(t, nosz ? nullptr : &ns);
         int e = errno;
-        c.op("%s()", mx ? "find_max" : "find_min");
+        c.op("%s(%s)", mx ? "find_max" : "find_min", nosz ? "namesize=NULL" : "");
+        if (nosz) { if (p) ns = strlen((const char *)p) + 1; c.tag("null_size_outparam"); }
         if (m.empty()) {
             if (p) c.fail(FUNC, "tree:minmax-empty", "find_%s on an empty table returned a key", mx ? "max" : "min");
             if (e != ENOENT) c.fail(FUNC, "tree:minmax-errno", "find_%s on empty table: errno=%d", mx ? "max" : "min", e);
